@@ -84,3 +84,95 @@ func c16Rejections(rep *vk.Report, idx int) {
 	}
 	rep.Distinct(fmt.Sprintf("rej|%s|%s|%v|%v", kind, how, async, refused))
 }
+
+// c16ExecutorCopies: WithContext returns a new copy (also for a nil context); listeners registered on a derived executor
+// belong to it alone, and each execution reports exactly once to the listeners of the executor it ran on.
+func c16ExecutorCopies(rep *vk.Report, idx int) {
+	r := vk.Rng(rep.Seed, "C16e", idx)
+	var sharedDone, sharedSucc, derivedDone atomic.Int64
+	shared := failsafe.NewExecutor[int]().OnDone(func(failsafe.ExecutionDoneEvent[int]) { sharedDone.Add(1) }).OnSuccess(func(failsafe.ExecutionDoneEvent[int]) { sharedSucc.Add(1) })
+	var ctx context.Context // nil: "no context to configure"
+	kind := vk.Pick(r, "nil", "background", "value")
+	switch kind {
+	case "background":
+		ctx = context.Background()
+	case "value":
+		ctx = context.WithValue(context.Background(), c14Key{}, 1)
+	}
+	derived := shared.WithContext(ctx).OnDone(func(failsafe.ExecutionDoneEvent[int]) { derivedDone.Add(1) })
+	n1, n2 := 1+r.IntN(3), 1+r.IntN(3)
+	run := func(ex failsafe.Executor[int]) {
+		if r.IntN(2) == 0 {
+			ex.Get(func() (int, error) { return 1, nil })
+		} else {
+			ex.GetAsync(func() (int, error) { return 1, nil }).Get()
+		}
+	}
+	for i := 0; i < n1; i++ {
+		run(shared)
+	}
+	for i := 0; i < n2; i++ {
+		run(derived)
+	}
+	rep.Eval()
+	if sharedDone.Load() != int64(n1) || sharedSucc.Load() != int64(n1+n2) || derivedDone.Load() != int64(n2) {
+		rep.Violate(idx, "C16/executor-copy-listeners", fmt.Sprintf("WithContext(%s): %d executions on the original executor and %d on the derived one: original OnDone fired %d times (want %d), original OnSuccess (inherited by the copy) %d (want %d), derived OnDone %d (want %d)", kind, n1, n2, sharedDone.Load(), n1, sharedSucc.Load(), n1+n2, derivedDone.Load(), n2), map[string]any{"ctx": kind})
+		return
+	}
+	rep.Distinct(fmt.Sprintf("copies|%s|%d|%d", kind, n1, n2))
+}
+
+// c16AsyncCancelConsistency: an async execution without a retry or hedge policy whose function ignores cancellation
+// completes with the function's own outcome; Cancel while it runs (or from the OnDone listener) must not make the
+// executor events disagree with what Get returns.
+func c16AsyncCancelConsistency(rep *vk.Report, idx int) {
+	r := vk.Rng(rep.Seed, "C16a", idx)
+	comp := vk.Pick(r, "none", "bulkhead", "limiter")
+	when := vk.Pick(r, "while-running", "in-ondone", "context-while-running")
+	var pols []failsafe.Policy[int]
+	switch comp {
+	case "bulkhead":
+		pols = append(pols, bulkhead.With[int](2))
+	case "limiter":
+		pols = append(pols, ratelimiter.Smooth[int](1000, time.Second))
+	}
+	parked, gate := make(chan struct{}), make(chan struct{})
+	var evs []string
+	var ar failsafe.ExecutionResult[int]
+	arReady := make(chan struct{})
+	ctx, cancelCtx := context.WithCancel(context.Background())
+	defer cancelCtx()
+	rec := func(name string) func(failsafe.ExecutionDoneEvent[int]) {
+		return func(e failsafe.ExecutionDoneEvent[int]) {
+			evs = append(evs, fmt.Sprintf("%s(%d,%v)", name, e.Result, e.Error))
+			if name == "done" && when == "in-ondone" {
+				<-arReady
+				ar.Cancel()
+			}
+		}
+	}
+	value := 900 + idx%50
+	ex := failsafe.NewExecutor[int](pols...).WithContext(ctx).OnSuccess(rec("success")).OnFailure(rec("failure")).OnDone(rec("done"))
+	ar = ex.GetAsync(func() (int, error) {
+		close(parked)
+		<-gate // ignores cancellation
+		return value, nil
+	})
+	close(arReady)
+	<-parked
+	switch when {
+	case "while-running":
+		ar.Cancel()
+	case "context-while-running":
+		cancelCtx()
+	}
+	close(gate)
+	res, err := ar.Get()
+	rep.Eval()
+	want := fmt.Sprintf("[success(%d,<nil>) done(%d,<nil>)]", value, value)
+	if fmt.Sprint(evs) != want || res != value || err != nil {
+		rep.Violate(idx, "C16/async-events-disagree-with-result", fmt.Sprintf("async execution through %s, cancelled %s, function ignores cancellation and returns (%d,nil): executor events %v, Get returned (%d,%v)", comp, when, value, evs, res, err), map[string]any{"composition": comp, "when": when})
+		return
+	}
+	rep.Distinct(fmt.Sprintf("asynccancel|%s|%s", comp, when))
+}
